@@ -3,8 +3,8 @@ import concurrent.futures, json, re, collections
 from ..main import Violation
 from .. import crash, core
 
-LEAN_MODULES = ["Shm.Props.C16"]
-GEN_TABLES = ["StoreSample.lean"]
+LEAN_MODULES = ["Shm.Props.C16", "Shm.Props.FactsC16"]
+GEN_TABLES = ["StoreSample.lean", "LockFacts.lean"]
 LEVEL = "fault_enumeration"
 QUICK_N = 10
 QUICK = ["create-small-private", "setattr-label-private-key", "setattr-label-big", "destroy-key", "setpin-user", "login-wrong-pin", "genkey-aes", "reinit-token", "copy-big", "inittoken-free", "read-aes-key", "read-ec-private", "read-ed-private", "read-ed-public", "read-big-data", "search-all"]
@@ -16,7 +16,9 @@ RULE = ("K16: for each of 19 mutating calls (C_CreateObject small public / small
         "operation (the kernel state a SIGKILL leaves; no stdio flush), and a FRESH process (exec) opens the directory: both tokens listed, SO and user logins with old and new "
         "PINs, every object found and every attribute incl. the value read. The Lean model is the oracle: the recovered API view must equal the model state before the call "
         "(S0) or after it (S1), each taken through a restart; anything else - an object lost, a half-written object listed, a PIN gone, a token that cannot be opened, a "
-        "recovery process that crashes or hangs - is a violation, classified by where in the write protocol the crash fell. quick: 9 calls, every k up to 40 and every "
+        "recovery process that crashes or hangs - is a violation, classified by where in the write protocol the crash fell. The recovery process runs with CKF_OS_LOCKING_OK (a loader that locks a mutex it holds hangs; an alarm ends it). 25 further scenarios create a key whose object file is "
+        "4096 + d bytes (d = 8..200) and ends in two attribute maps and a mechanism set, so that the prefix the kernel holds after a process death is cut inside those records. "
+        "T16 (source text, lean/Shm/Props/FactsC16.lean): no method of the object-store classes calls, under its MutexLocker, a method of the same class that takes the same mutex. quick: 9 calls, every k up to 40 and every "
         "distinct transition beyond; thorough: all 19 calls, every k. A case is non-trivial when the crash fell after the first and before the last file-system operation.")
 TRUSTED = ["C++ harness p11drv: libc interposition by symbol definition in the executable (static library binds to it), fork/_exit/exec orchestration",
            "the Lean model as oracle for S0/S1 (validated by the correspondence suites of C05/C04/C14)"]
@@ -39,7 +41,8 @@ def classify(run, res):
 
 
 def explore(name, quick):
-    run = crash.run_scenario(name, None, None)
+    # the cut scenarios: the two last rewrites of the call carry the whole object; the process dies before each of their flushes (the first 4096 bytes are in the kernel by then)
+    run = crash.run_scenario(name, None, None, last=4 if name.startswith("create-mechs-cut") else None)
     if run.get("error"): return name, run, []
     out = []
     pts = run["results"]
@@ -61,8 +64,10 @@ def crash_phase(run, r):
 
 def run_k(ctx, kres):
     setup, names = crash.scene()
+    size0 = crash.calibrate_mechs()
+    kres["notes"].append("mechanism-set scenario: object file with an empty CKA_ID is %d bytes; CKA_ID padded so that the file is 4096 + d bytes, d in %s" % (size0, crash.MECH_CUTS))
     scen = [s[0] for s in crash.scenarios(names)]
-    if ctx.quick: scen = [s for s in scen if s in QUICK]
+    if ctx.quick: scen = [s for s in scen if s in QUICK or (s.startswith("create-mechs-cut") and int(s[16:]) % 16 == 8)]
     kres["suites"] += 1
     viols = {}
     with concurrent.futures.ThreadPoolExecutor(max_workers=min(8, core.JOBS)) as ex:
@@ -98,6 +103,7 @@ def replay(ctx, path):
     if not m:
         print(text); return 1
     name, k = m.group(1), int(m.group(2))
+    if name.startswith("create-mechs-cut"): crash.calibrate_mechs()
     run = crash.run_scenario(name, None, None, points={k})
     if run.get("error"): print(run["error"]); return 1
     r = run["results"][0]
